@@ -3,6 +3,14 @@ batched dtml-in over counting iterators (bounded and unbounded)."""
 import itertools
 
 
+class PullLimit(BaseException):
+    """an unbounded producer was asked for far more elements than any window needs (BaseException so that
+    no ``except Exception`` of the code under test swallows it)"""
+
+
+LIMIT = 400
+
+
 class Counting:
     def __init__(self, n=None):
         self.n = n
@@ -12,6 +20,8 @@ class Counting:
         i = 0
         while self.n is None or i < self.n:
             i += 1
+            if self.n is None and i > LIMIT:
+                raise PullLimit(i)
             self.pulled.append(i)
             yield i
 
@@ -29,6 +39,8 @@ def search():
             n += 1
             try:
                 out = HTML(src)(seq=iter(c))
+            except PullLimit:
+                return n, dict(source=src, length=L, pulled='more than %d elements of an unbounded producer' % LIMIT)
             except Exception as e:  # noqa
                 return n, dict(source=src, length=L, raised=repr(e))
             shown = [int(x) for x in out.replace('[', ' ').replace(']', ' ').split()]
@@ -48,7 +60,10 @@ def search():
     # name form: the body sees the same memoising wrapper
     c = Counting(None)
     n += 1
-    out = HTML('<dtml-in seq size=2 orphan=0>[<dtml-var sequence-item>:<dtml-in seq size=1 orphan=0><dtml-var sequence-item></dtml-in>]</dtml-in>')(seq=iter(c))
+    try:
+        out = HTML('<dtml-in seq size=2 orphan=0>[<dtml-var sequence-item>:<dtml-in seq size=1 orphan=0><dtml-var sequence-item></dtml-in>]</dtml-in>')(seq=iter(c))
+    except PullLimit:
+        return n, dict(source='nested by name', pulled='more than %d elements of an unbounded producer' % LIMIT)
     if len(c.pulled) > 2 + 2 + 0 or out != '[1:1][2:1]':
         return n, dict(source='nested by name', pulled=len(c.pulled), output=out)
     return n, None
